@@ -688,6 +688,10 @@ fn run_case(case: &Val) -> Val {
             for ch in t.restale_llgr(src.remote_addr, Family::IPV4) {
                 process_nlri_change(&ch, emax, raddr, &mut map, &mut sink, &ctx, None, cid, None, None, None);
             }
+            // TableManager::mark_llgr_stale: NO_LLGR paths are dropped right after the marking
+            for ch in t.drop_no_llgr(src.remote_addr, Family::IPV4, None).0 {
+                process_nlri_change(&ch, emax, raddr, &mut map, &mut sink, &ctx, None, cid, None, None, None);
+            }
             let ops2 = std::mem::take(&mut sink.ops);
             Val::L(vec![norm(ops1), norm(ops2)])
         }
